@@ -11,7 +11,7 @@ if os.path.exists(mp):
 assert subprocess.run(['git', '-C', '/repo', 'status', '--porcelain', '--untracked-files=no'], stdout=subprocess.PIPE).stdout.strip() == b'', '/repo not clean'
 for d in sorted(os.listdir(os.path.join(V, 'seeded'))):
     p = os.path.join(V, 'seeded', d)
-    if not os.path.isdir(p) or (only and d not in only):
+    if not os.path.isdir(p) or (only and d not in only) or not os.path.exists(os.path.join(p, 'meta.json')):
         continue
     meta = json.load(open(os.path.join(p, 'meta.json')))
     pid = meta['breaks_property']
@@ -27,6 +27,7 @@ for d in sorted(os.listdir(os.path.join(V, 'seeded'))):
     finally:
         subprocess.run(['git', '-C', '/repo', 'checkout', '--', '.'])
     print(d, out[d]['rc'], out[d]['violations'][:2], flush=True)
+    json.dump(out, open(mp, 'w'), indent=1, sort_keys=True)
 json.dump(out, open(mp, 'w'), indent=1, sort_keys=True)
 miss = [k for k, v in out.items() if v.get('rc') != 1]
 print('detected %d / %d ; missed: %s' % (len(out) - len(miss), len(out), miss))
